@@ -607,7 +607,7 @@ func (r *c17Run) serverRole() {
 		}
 		r.rec.emit(map[string]any{"e": "sact", "tunnel": action.TunnelConnected}, nil)
 		r.signal("sact")
-		args := &baseArgs{Quiet: true, Bufsize: bufferSize{Size: 10 * 1024 * 1024}, Timeout: 10, Binary: r.binary}
+		args := &baseArgs{Quiet: true, Bufsize: bufferSize{Size: 10 * 1024 * 1024}, Timeout: 30, Binary: r.binary}
 		if args.Binary && !action.SupportBinary { // as trz.go recvFiles / tsz.go sendFiles do
 			args.Binary = false
 		}
@@ -660,7 +660,7 @@ func (t *trzszTransfer) serverErrorQuiet(err error) {
 
 // finishTransfer waits for both roles and emits ret / fs.
 func (r *c17Run) finishTransfer(constrained bool) (hung bool) {
-	wd := 45 * time.Second
+	wd := 100 * time.Second
 	if !constrained {
 		// a stranger that knew the greeting was adopted: nothing is promised; end it quickly
 		time.Sleep(30 * time.Millisecond)
